@@ -50,8 +50,10 @@ type RegistrationManager struct {
 	connectingStats ConnectingTpStats
 
 	// ingestChan is included here so that the capacity and use is available to
-	// stats
-	ingestChan <-chan interface{}
+	// stats. It is set by HandleRegUpdates while the stats printer may already
+	// be running, so it is only accessed under ingestChanMu.
+	ingestChan   <-chan interface{}
+	ingestChanMu sync.RWMutex
 
 	// reloadMu guards PhantomSelector and GeoIP, which OnReload replaces while ingest workers and
 	// connection handlers use them. Read them through Selector() and GeoIPDatabase().
